@@ -41,7 +41,7 @@ func verifNewConnC09(withConnect, withDisconnect bool) *connection {
 	verifK = &verifKMon{}
 	runner_RunTask_set()
 	pollmanager = newManager(1)
-	nfd := newNetFD(7, 2, 1, "tcp")
+	nfd := verifNetFD()
 	c := &connection{}
 	opts := &options{}
 	opts.onRequest = verifHandlerC09
